@@ -78,6 +78,9 @@ def oracle(ctx, g, impl):
     true_roots = [x for x in range(n) if not adj[x]]
     for key, root in (('noroot', False), ('root', True)):
         o = impl[key]
+        if o.get('shortcuts_bad'):
+            ctx.fail('Synset-shortcut-methods-agree-with-the-wn.taxonomy-functions', g,
+                     {'simulate_root': root, '[method, node(s), method result, function result]': o['shortcuts_bad']})
         for x in range(n):
             exp = chains[x]
             if root:
